@@ -673,26 +673,16 @@ fn partial_liquidation(
     )
     .unwrap();
 
-    let msg: SubMsg = if current_notional > position.notional {
-        swap_input(
-            &vamm,
-            direction_to_side(position.direction.clone()),
-            position.notional,
-            Uint128::zero(),
-            true,
-            PARTIAL_LIQUIDATION_REPLY_ID,
-        )
-        .unwrap()
-    } else {
-        swap_output(
-            &vamm,
-            direction_to_side(position.direction),
-            partial_position_size,
-            partial_asset_limit,
-            PARTIAL_LIQUIDATION_REPLY_ID,
-        )
-        .unwrap()
-    };
+    // the slice is always taken out with a base-denominated swap against the position: that is the
+    // only kind of swap partial_liquidation_reply accounts for
+    let msg: SubMsg = swap_output(
+        &vamm,
+        direction_to_side(position.direction),
+        partial_position_size,
+        partial_asset_limit,
+        PARTIAL_LIQUIDATION_REPLY_ID,
+    )
+    .unwrap();
 
     Ok(msg)
 }
